@@ -1,7 +1,7 @@
 ---- MODULE TraceRlp ----
 (* C14 part 1, code side.  Every line is what the REAL codec (/repo/common/rlp) did on one input:
-     dec     a byte string decoded into interface{}, []byte, uint64, uint32, uint8, *big.Int, bool,
-             and scanned by Split / CountValues
+     dec     a byte string decoded into interface{}, []byte, string, [1]byte, [2]byte, uint64, uint32, uint8,
+             *big.Int, bool, struct{uint64; []byte}, and scanned by Split / CountValues
      enc     a nested value encoded by EncodeToBytes
      encint  an unsigned integer (given by its minimal big-endian bytes) encoded as uint64 and *big.Int
    A line is consumed only when every real result equals what Rlp.tla defines; a line carrying
@@ -17,6 +17,10 @@ DecOK(e) ==
     /\ e.u8    = AsUint(d, 1)
     /\ e.big   = AsUint(d, 0)
     /\ e.bool  = AsBool(d)
+    /\ e.str   = AsBytes(d)
+    /\ e.arr1  = AsArray(d, 1)
+    /\ e.arr2  = AsArray(d, 2)
+    /\ e.pair  = AsPair(d)
     /\ e.split = Split(e.bs)
     /\ e.count = CountTop(e.bs)
     \* canonicity restated on the real result: what the code accepted re-encodes to the very input
